@@ -176,7 +176,16 @@ def run(ctx):
     for rid, ev in runs0.items():
         if rid in failed0:
             continue
-        got = [sorted(json.dumps(r, sort_keys=True) for r in em) for em in per_firing_emission(ev)]
+        # the engine also fires for windows that close empty (e.g. [0,1) before the first item): the model has no such firing
+        got, cur = [], None
+        for e in ev:
+            if e["ev"] == "fire":
+                cur = [] if e["items"] else None
+                if cur is not None:
+                    got.append(cur)
+            elif e["ev"] == "emit" and cur is not None:
+                cur.append(json.dumps(e["row"], sort_keys=True))
+        got = [sorted(x) for x in got]
         if got != ev[0]["case"]["model"]:
             drift0 += 1
     log(f"L2 replayed {len(l2)} content sequences of the model (x stream operators; every third multi-threaded): {len(failed0)} rejected, "
